@@ -146,7 +146,7 @@ void sc_prt(Tape& t, int, Emit& e) {
 }
 // LZH member of a reference-encoded volume whose first matches reach back before the start of the output, i.e. into the part of the
 // decoder's window nothing has written yet (it must read as the format's space fill, whatever the memory held before)
-void sc_lzh(Tape& t, int, Emit& e) {
+void sc_lzh(Tape& t, int variant, Emit& e) {
 	volgen::root(); volgen::mkdirs("%o/");
 	std::vector<reflzh::Token> toks; unsigned produced = 0;
 	unsigned n = 1 + unsigned(t.below(40));
@@ -165,6 +165,15 @@ void sc_lzh(Tape& t, int, Emit& e) {
 	refvol::Member m; m.name = "p.bin"; m.payload = packed; m.comp = refvol::CompLZH; m.sizeField = uint32_t(reflzh::decode(packed).out.size());
 	std::string vp = "%o/lzh.vol", xp = "%o/lzh.out"; write_file(vp, refvol::encode({m})); remove(xp.c_str());
 	{ Archive::VolFile v(vp); v.ExtractFile(0, xp); e.blob("lzh.extracted", slurp(xp)); }
+	// two LZH members of different packed size through ONE archive object, extracted in an order that differs between the runs:
+	// each member's bytes depend on the member alone, not on what was extracted before it
+	if (packed.size() >= 2) {
+		refvol::Member m2; m2.name = "q.bin"; m2.payload.assign(packed.begin(), packed.begin() + packed.size() / 2); m2.comp = refvol::CompLZH; m2.sizeField = uint32_t(reflzh::decode(m2.payload).out.size());
+		write_file(vp, refvol::encode({m, m2}));
+		Archive::VolFile v2(vp); std::vector<uint8_t> out[2];
+		for (int k = 0; k < 2; ++k) { int idx = variant ? 1 - k : k; remove(xp.c_str()); v2.ExtractFile(size_t(idx), xp); out[idx] = slurp(xp); }
+		e.blob("lzh.member0", out[0]); e.blob("lzh.member1", out[1]);
+	}
 	{ Archive::HuffLZ dec(Archive::BitStreamReader(packed.data(), packed.size())); std::vector<uint8_t> out; char buf[97]; for (;;) { size_t k = dec.GetData(buf, sizeof buf); out.insert(out.end(), buf, buf + k); if (k < sizeof buf || out.size() > 400000) break; } e.blob("lzh.getdata", out); }
 	e.headerFromLocal = true; e.container = produced > 0;
 	remove(vp.c_str()); remove(xp.c_str());
